@@ -83,6 +83,7 @@ type c03State struct {
 type c03Echo struct {
 	got   []string // raw parameters seen by the handler
 	seq   []string // more: documents to reply
+	done  int      // more: handler invocations that have finished
 	typed interface{}
 }
 
@@ -113,9 +114,16 @@ func (e *c03Echo) VarlinkDispatch(ctx context.Context, c varlink.Call, method st
 				params = nil // a reply without a parameters member
 			}
 			if err := c.Reply(ctx, params); err != nil {
+				e.done++
 				return err
 			}
+			// the call's parameters are still what they were after a reply has gone out
+			var after json.RawMessage
+			if err := c.GetParameters(&after); err != nil || string(after) != string(raw) {
+				e.got = append(e.got, fmt.Sprintf("READ-AFTER-REPLY-DIFFERS: %s (err %v)", string(after), err))
+			}
 		}
+		e.done++
 		return nil
 	case "Typed":
 		return c.Reply(ctx, e.typed)
@@ -271,7 +279,13 @@ func c03Body(d c03Desc, tier string) func() {
 				if si%2 == 1 {
 					sctx = vnet.NewCtx("send-op")
 				}
-				recv, err := conn.Send(sctx, "t.r.More", json.RawMessage(`{"q":1}`), varlink.More)
+				echo.got = echo.got[:0]
+				// (a request longer than any of the replies, and one shorter than most)
+				moreParams := `{"q":1}`
+				if si%3 != 2 {
+					moreParams = `{"q":1,"pad":"` + strings.Repeat("p", 40+si%7) + `","z":[1,2,3]}`
+				}
+				recv, err := conn.Send(sctx, "t.r.More", json.RawMessage(moreParams), varlink.More)
 				if sctx != live {
 					sctx.Cancel() // the Send is over; every reply of the sequence is still to be received under live
 				}
@@ -282,6 +296,8 @@ func c03Body(d c03Desc, tier string) func() {
 				st.cases++
 				if len(sq) == 0 {
 					// the handler never replies: nothing to receive; use a fresh connection afterwards
+					vsched.Yield("wait-more-handler-done", "H", func() bool { return echo.done > 0 })
+					echo.done = 0
 					c, _ = l.Dial("")
 					conn = varlink.VerifNewConnection(c)
 					continue
@@ -307,6 +323,13 @@ func c03Body(d c03Desc, tier string) func() {
 					}
 				}
 				if st.fail != "" {
+					break
+				}
+				// what the handler read, before its first reply and again after each one
+				vsched.Yield("wait-more-handler-done", "H", func() bool { return echo.done > 0 })
+				echo.done = 0
+				if len(echo.got) != 1 || !rawJSONEqual([]byte(echo.got[0]), []byte(moreParams)) {
+					fail("more-sequence %v called with %s: the handler read %v", sq, moreParams, echo.got)
 					break
 				}
 			}
